@@ -85,6 +85,7 @@ PROPS = {
         "One record per address; identities only move forward; own address never active",
         {
             "never two records with one address; grows only for new addresses": "theorem (full, every reachable state — any history of public calls, inputs and RNG draws): C09H.one_record_per_address_always, C09H.address_determines_record; per update, every RNG draw: one_record_per_address, known_address_keeps_addresses, grows_only_for_new_addresses",
+            "… in every instance of every cluster, at every moment": "theorem (full, cluster level): C09S.one_record_per_address_everywhere — in every reachable cluster (NetReach: datagrams late, repeated, misdelivered or lost, timers in any order, API calls at any time) every instance lists one identity per address, counts its active members exactly and keeps one pending update per address; C09S.every_node_is_reachable (Proofs/NetNodes.lean: the nodes of a reachable cluster are reachable states, so every single-instance whole-history theorem applies cluster-wide)",
             "identity replaced only by a conflict winner, reported as Rename": "theorem (full): replaced_only_by_conflict_winner, rename_is_notified",
             "own address never active": "theorem (full, every state reachable by any history of public calls with change_identity used as documented — same address, or an address without an active record): C09H.own_address_never_active_always, C09H.own_address_never_active_step (invariant OwnInv through every model function, Proofs/OwnInv.lean); per update: own_address_never_active, C19.own_address_updates_become_down",
             "data from own identity/address rejected before any change": "theorem (full): data_from_own_address_is_rejected",
@@ -272,7 +273,8 @@ PROPS = {
             "every delivered datagram causes at most a bounded number of new datagrams": "theorem (full, any bytes, any state, any RNG draws): C18H.bounded_fanout_per_datagram — at most k*(u+1)+1 datagrams, k = num_indirect_probes, u = number of member updates the datagram carries (one reply/relay/TurnUndead notice, plus one gossip round per update about the instance itself that makes it refute or renew); C18H.bare_datagram_fanout (k+1 for a datagram without updates); Proofs/FanOut.lean (Adds k n: keeps k, adds at most n datagrams; composition with explicit bounds)",
             "no cycle of automatic replies, at the level of datagrams": "theorem (full, any bytes, any state, any RNG draws): C18S.answers_descend — the datagrams sent while handling a delivered datagram are rounds of Gossip followed by at most one more datagram, the automatic answer, whose kind has strictly lower rank than the delivered kind (or a TurnUndead answering a TurnUndead from a sender considered down); every datagram is built by send_message around a header naming its destination; C18S.every_datagram_is_gossip_or_answer, answer_ranks_descend, rank_le_four, terminal_kinds_only_get_turnundead; Proofs/Kinds.lean (Says K: kinds of the messages in the effects), Proofs/KindsReply.lean (Answered)",
             "gossip rounds are caused only by updates naming the receiver (or a TurnUndead)": "theorem (full): C18S.fanout_counts_updates_about_receiver — at most k*(u+t)+1 datagrams, u = updates in the datagram naming the receiver's own address, t = 1 for a TurnUndead; C18S.quiet_datagram_gets_one_answer (a datagram that says nothing about its receiver and is not a TurnUndead causes at most one datagram: exchanges of such datagrams end after at most four hops); Proofs/FanOutSelf.lean (AddsA: address-aware counting)",
-            "global termination of the exchange among 2-3 instances in arbitrary mutual-knowledge states": "partial: the well-founded measure across instances (knowledge lattice, remaining backlog transmissions, ranks in flight; DESIGN.md Appendix B) is not formalised; explored by the simulator with timers held (cap 300 deliveries)",
+            "global termination of the exchange, fault-free clusters": "theorem (full, cluster level): C18S.calm_exchanges_end — in any cluster reached without a failed probe round (CalmReach; any number of instances, any history), with timers and API calls held, datagrams taken off the wire one at a time in any order by any instance: each delivery puts back at most one datagram of strictly lower rank (C18S.calm_delivery_gets_one_lighter_answer), so k deliveries lower the wire weight (rank+1 per datagram) by at least k, and it is at most 5 per datagram in flight; Proofs/CalmDrain.lean (weight, Net.consume, Drains), CalmSent.deliver (the calm walk parametrised by the kinds a call may send); worked example: the Announce of C02S's cluster is consumed and answered by a Feed",
+            "global termination of the exchange among 2-3 instances in arbitrary mutual-knowledge states (suspect, down, renewed identities)": "partial: the well-founded measure must also account for refutation rounds (knowledge lattice, remaining backlog transmissions; DESIGN.md Appendix B) and is not formalised; explored by the simulator with timers held (cap 300 deliveries)",
         },
         "search: simulator with timers held: 2-3 real instances in random mutual-knowledge states (alive, suspect, down, newer/older identity; some left the cluster), all four renew policies, notify_down_members on/off, one initial datagram of each of the 11 kinds, deliveries until the network is empty; violation when more than 300 deliveries or more than a bounded fan-out per delivery. " + RULE_HIST,
         [],
